@@ -58,6 +58,13 @@ func H_C15_gate(v *zzverif.T) {
 			pool[i] = zzverif.NewTensor([]float32{1}, []int{1})
 			continue
 		}
+		if v.Has("excessnil") && v.CBool("excessnil") && i >= max && i < n {
+			continue // the entries beyond the operator's maximum are nil: the list is still too long
+		}
+		if v.Has("alias") && v.CBool("alias") && i > 0 && pool[0] != nil {
+			pool[i] = pool[0] // ONE tensor object at every position (its element type must fit every position)
+			continue
+		}
 		pool[i] = v.DtypeTensor(fmt.Sprintf("in%d", i))
 	}
 	var inputs []tensor.Tensor
